@@ -111,7 +111,7 @@ def checkOp : P String := do
       1.0 + absF (i.maxDensity * at' i.builtArea e.month) + absF (x (.mv .swWet e.month))
     else need
   let core := (physCore i kd x).map fun e => (e.clause, e.month, e.value, scaleOf e)
-  let gap := (physGap i kd x).map fun e => (e.clause, e.month, e.value, scaleOf e)
+  let gap := (physGap i kd x ++ meatVsSlaughter i x).map fun e => (e.clause, e.month, e.value, scaleOf e)
   let grp (l : List (String × Nat × Float × Float)) : String :=
     let t := topK 8 l
     " ".intercalate ([toString l.length, toString t.length] ++ t.map exStr)
